@@ -321,4 +321,5 @@ func main() {
 	writeIfChanged(filepath.Join(out, "DemuxGen.v"), p.emitDemuxGen())
 	writeIfChanged(filepath.Join(out, "PsiGen.v"), p.emitPsiGen())
 	writeIfChanged(filepath.Join(out, "Alias.v"), p.emitAlias()+p.emitGlobals())
+	writeIfChanged(filepath.Join(out, "WriteGen.v"), p.emitWriteGen())
 }
